@@ -30,7 +30,7 @@ def simrun_designs(invariants, properties=(), quick=True):
         out.append({"module": "MC_SimRun", "constants": {"MaxUpdates": "3", "MaxReqs": "2", "TwoStrats": "FALSE", "Iso": "TRUE"}, "view": "View", "invariants": inv, "properties": prp,
                     "must_reach": ["Reach_Replacement"], "timeout": 900})
     out.append({"module": "MC_SimRun", "constants": {"MaxUpdates": "4", "MaxReqs": "3", "TwoStrats": "FALSE", "Iso": "TRUE"}, "view": "View", "invariants": inv, "properties": prp,
-                "must_reach": ["Reach_PartialFill", "Reach_QueueHonoured"], "tier": "thorough", "timeout": 2400})
+                "must_reach": ["Reach_Replacement", "Reach_QueueHonoured"], "tier": "thorough", "timeout": 2400})
     return out
 
 
